@@ -203,15 +203,21 @@ def main():
 
     # --- obligations ---
     vfile = os.path.join(COQ, prop["src"])
+    # further property files of the same property (theorems proved later, one file per proof family)
+    more = [os.path.join(COQ, m) for m in prop.get("more_src", []) if os.path.exists(os.path.join(COQ, m))]
     thms = theorem_names(vfile)
+    for mf in more:
+        thms += theorem_names(mf)
     # the run targets (checkers used by cases.v) decide whether the implementation can be run and judged;
     # further support targets (proof files tied to extracted facts) only count as obligations
     ok_run, out_run = coq_make(prop.get("run_targets", []), log)
     ok_support, out_support = coq_make(prop.get("support", []), log)
-    ok_prop, out_prop = coq_make([prop["target"]], log)
+    ok_prop, out_prop = coq_make([prop["target"]] + [os.path.relpath(m, COQ)[:-2] + ".vo" for m in more], log)
     assumptions = []
     if ok_prop:
         _, assumptions, _ = parse_assumptions(vfile)
+        for mf in more:
+            assumptions += parse_assumptions(mf)[1]
     discharged = len(thms) if ok_prop else 0
     broken = []
     if not ok_run:
@@ -400,7 +406,7 @@ def write_evidence(pid, tier, seed, prop, r):
         property_id=pid, tier=tier, seed=seed, level="proof",
         coverage=dict(
             obligations=max(1, r["obligations"]), discharged=r["discharged"],
-            checker_cmd="make -C /verif/coq %s (coqc 8.16.1, full .vo build) ; coqc cases.v (vm_compute of monitors and model on the implementation's observed behaviour)" % prop["target"],
+            checker_cmd="make -C /verif/coq %s (coqc 8.16.1, full .vo build) ; coqc cases.v (vm_compute of monitors and model on the implementation's observed behaviour)" % " ".join([prop["target"]] + [m[:-2] + ".vo" for m in prop.get("more_src", [])]),
             trusted_base=tb,
             evaluations=cases, distinct_nontrivial=distinct,
             traces_validated_against_impl=cases,
